@@ -514,3 +514,4 @@ package proto
 //@   requires b != nil
 //@   ensures r != nil && r.pos == 0 && r.end == len(b.Buf) && !r.failed && r.reliable {fresh-reader}
 //@   ensures forall k in 0..len(b.Buf) :: r.in[k] == b.Buf[k] {over-the-buffer}
+//@   ensures offset(b.Buf) == 0 ==> r.in == arrayof(b.Buf) {same-array}
